@@ -2,6 +2,8 @@ import GcArena.Proofs.BrandFlowLemmas
 import GcArena.Generated.BrandFlow
 import GcArena.Proofs.CollectLemmas
 import GcArena.Generated.CollectTable
+import GcArena.Proofs.MacroImplsLemmas
+import GcArena.Generated.MacroImpls
 /-!
 # C12 (brand flow) — no function that safe code can call lets the caller choose a brand
 
@@ -208,5 +210,44 @@ theorem hasher_mutant_witness :
     CollectTy.Example.hmCurrent.untracedStatic = true ∧
     CollectTy.Example.hmMutant.untracedStatic = false := by decide
 
+
+/-! ## `'static`-only `Collect` impls generated for clients: `static_collect!`
+
+`static_collect!(<T> Latch<'gc, T>)` is the documented generic form: the user-supplied type may name
+the `'gc` the impl header declares.  The generated impl has `NEEDS_TRACE = false` and no `trace`, so
+the only thing that keeps a branded type (`Latch<'gc, T>(Cell<Option<&'gc T>>)`) from becoming an
+untraced, barrier-free `Collect<'gc>` *for every brand* is the predicate `$type: 'static` on the
+type itself; `T: 'static` on the declared parameters says nothing about `'gc`.  The translator reads
+every arm's expansion template from the raw source (`extract/src/macroimpls.rs`,
+`GcArena/Generated/MacroImpls.lean`); rule and general theorem: `Model/MacroImpls.lean`,
+`Proofs/MacroImplsLemmas.lean`. -/
+
+/-- Every arm of `static_collect!` in the current source satisfies the template rule (and both arms
+were found and classified): claiming `NEEDS_TRACE = false` / an empty `trace` is licensed by
+`$type: 'static` on the user-supplied type. -/
+theorem static_collect_templates_ok :
+    Generated.macroImplsUnclassified = [] ∧
+    (Generated.macroImpls.filter (fun t => t.macroName == "static_collect")).length = 2 ∧
+    (Generated.macroImpls.filter (fun t => t.macroName == "static_collect")).all
+      MacroImpls.Template.ok = true := by decide
+
+/-- What the rule buys (every template, every instantiation): if the user-supplied type mentions a
+brand, the generated impl is not brand-generic — so no generative callback and no root bound
+accepts it — or it traces with `NEEDS_TRACE = true`. -/
+theorem template_impl_is_static_or_traces (t : MacroImpls.Template) (h : t.ok = true)
+    (i : MacroImpls.Inst) (hb : i.brandFree = false) :
+    t.brandGeneric i = false ∨ (t.reportsNothing = false ∧ t.needsTraceValue = some true) :=
+  MacroImpls.ok_sound t h i hb
+
+/-- The seeded change `where $type: 'static` ↦ `$($params: 'static,)+` in the generic arm is
+rejected by the rule (the crate's arm is accepted), and under it a type mentioning the brand gets an
+impl for every brand that reports nothing. -/
+theorem static_collect_mutant_witness :
+    MacroImpls.Example.staticCollectArm0.ok = true ∧
+    MacroImpls.Example.staticCollectArm0Mutant.ok = false ∧
+    ∃ i : MacroImpls.Inst, i.brandFree = false ∧
+      MacroImpls.Example.staticCollectArm0Mutant.brandGeneric i = true ∧
+      MacroImpls.Example.staticCollectArm0Mutant.reportsNothing = true :=
+  ⟨by decide, by decide, MacroImpls.unlicensed_hides _ (by decide) (by decide)⟩
 
 end GcArena.C12s
